@@ -58,7 +58,9 @@ func runGated(ops []string) string {
 	handler := func(err error) {
 		var id int
 		msg := err.Error()
-		if i := strings.Index(msg, "task#"); i >= 0 {
+		if pid := panickingTask(); pid >= 0 {
+			id = pid
+		} else if i := strings.Index(msg, "task#"); i >= 0 {
 			fmt.Sscanf(msg[i:], "task#%d", &id)
 		} else {
 			id = -1
@@ -95,7 +97,8 @@ func runGated(ops []string) string {
 				finished = append(finished, id)
 				mu.Unlock()
 				if panicky[id] {
-					panic(fmt.Sprintf("task#%d", id))
+					notePanic(id)
+					panic(panicValue(id))
 				}
 			})
 			atomic.AddInt32(&submitted, 1)
@@ -196,7 +199,9 @@ func runFree(f []string) string {
 	handler := func(err error) {
 		var id int
 		msg := err.Error()
-		if i := strings.Index(msg, "task#"); i >= 0 {
+		if pid := panickingTask(); pid >= 0 {
+			id = pid
+		} else if i := strings.Index(msg, "task#"); i >= 0 {
 			fmt.Sscanf(msg[i:], "task#%d", &id)
 		}
 		mu.Lock()
@@ -249,7 +254,8 @@ func runFree(f []string) string {
 					atomic.AddInt32(&running, -1)
 					atomic.AddInt32(&finishedCount, 1)
 					if panicEvery > 0 && id%panicEvery == 0 {
-						panic(fmt.Sprintf("task#%d", id))
+						notePanic(id)
+						panic(panicValue(id))
 					}
 				})
 				atomic.StoreInt64(&submitSeq[id], atomic.AddInt64(&seq, 1))
@@ -386,6 +392,71 @@ func gen(r *hx.Rand, n int) []string {
 		out = append(out, strings.Join(ops, ";"))
 	}
 	return out
+}
+
+// The recovery handler runs on the goroutine of the task that panicked (errs.Recovery is deferred in runTask), so a task notes
+// its id under its goroutine before panicking and the handler looks it up: panic values that cannot carry the id (typed nils)
+// are attributed to the right task all the same.
+var (
+	panicking   = map[string]int{}
+	panickingMu sync.Mutex
+)
+
+func goid() string {
+	b := make([]byte, 64)
+	b = b[:runtime.Stack(b, false)]
+	f := strings.Fields(string(b)) // "goroutine N [running]:"
+	if len(f) > 1 {
+		return f[1]
+	}
+	return "?"
+}
+
+func notePanic(id int) {
+	panickingMu.Lock()
+	panicking[goid()] = id
+	panickingMu.Unlock()
+}
+
+func panickingTask() int {
+	panickingMu.Lock()
+	defer panickingMu.Unlock()
+	if id, ok := panicking[goid()]; ok {
+		delete(panicking, goid())
+		return id
+	}
+	return -1
+}
+
+type taskErr struct{ id int }
+
+func (e *taskErr) Error() string {
+	if e == nil { // a typed nil is used as a panic value below; the handler calls Error on it
+		return "typed-nil task error"
+	}
+	return fmt.Sprintf("task#%d", e.id)
+}
+
+// panicValue: what a failing task panics with - a string, an error, an int, and typed nils (a nil pointer, map or slice inside a
+// non-nil interface is still a panic: the handler must hear of it)
+func panicValue(id int) any {
+	switch id % 6 {
+	case 0:
+		return fmt.Sprintf("task#%d", id)
+	case 1:
+		return &taskErr{id}
+	case 2:
+		return id
+	case 3:
+		var e *taskErr
+		return e
+	case 4:
+		var m map[string]int
+		return m
+	default:
+		var sl []int
+		return sl
+	}
 }
 
 func main() { hx.Main(gen, run) }
